@@ -26,6 +26,9 @@ type c15Case struct {
 	// LongFrames > 0: the animation has this many frames (around the readers' 1000-chunk bookkeeping
 	// limit) of a tiny canvas, each differing from the previous one in one pixel
 	LongFrames int
+	// Arena: the three blobs are handed over as consecutive sub-slices of one buffer (spare capacity behind each,
+	// the next blob's bytes lying directly behind the previous one), as a caller that parsed them out of a file would
+	Arena bool
 }
 
 func genC15(t *rapid.T) *c15Case {
@@ -54,6 +57,7 @@ func genC15(t *rapid.T) *c15Case {
 		c.Opts.EXIF, c.Opts.EXIFNil = []byte{1, 2, 3}, false
 		break
 	}
+	c.Arena = rapid.IntRange(0, 2).Draw(t, "arena") == 0
 	if c.Kind == "anim" && rapid.IntRange(0, 39).Draw(t, "longAnim") == 0 {
 		c.LongFrames = rapid.SampledFrom([]int{500, 996, 997, 998, 999, 1000, 1001, 1100, 2100}).Draw(t, "longFrames")
 		c.Img.W, c.Img.H = rapid.IntRange(1, 4).Draw(t, "longW"), rapid.IntRange(1, 4).Draw(t, "longH")
@@ -157,6 +161,29 @@ func checkC15(c *c15Case, o *core.Obs) error {
 		return b
 	}
 	icc, exif, xmp := blob(c.Opts.ICC, c.Opts.ICCNil), blob(c.Opts.EXIF, c.Opts.EXIFNil), blob(c.Opts.XMP, c.Opts.XMPNil)
+	if c.Arena {
+		arena := append(append(append(append([]byte{}, icc...), exif...), xmp...), 0xa5, 0x5a, 0xa5, 0x5a)
+		pristine := append([]byte(nil), arena...)
+		carve := func(off int, b []byte) []byte {
+			if b == nil {
+				return nil
+			}
+			return arena[off : off+len(b)] // capacity runs on to the end of the arena
+		}
+		icc, exif, xmp = carve(0, icc), carve(len(icc), exif), carve(len(icc)+len(exif), xmp)
+		oc := *c.Opts
+		oc.ICC, oc.EXIF, oc.XMP = icc, exif, xmp
+		cc := *c
+		cc.Opts, cc.Arena = &oc, false
+		if err := checkC15(&cc, o); err != nil {
+			return fmt.Errorf("blobs carved from one buffer: %v", err)
+		}
+		if !bytes.Equal(arena, pristine) {
+			return fmt.Errorf("the caller's metadata buffer was modified (first difference at byte %d of %d; blob lengths %d/%d/%d)", firstDiff(arena, pristine), len(arena), len(icc), len(exif), len(xmp))
+		}
+		o.Label("arena")
+		return nil
+	}
 	subset := fmt.Sprintf("i%d%d e%d%d x%d%d", b2i(len(icc) > 0), len(icc)&1, b2i(len(exif) > 0), len(exif)&1, b2i(len(xmp) > 0), len(xmp)&1)
 	o.Label("kind=" + c.Kind)
 	o.Labelf("lossless=%v alpha=%v", c.Opts.Lossless, c.Img.HasTransparency())
